@@ -200,7 +200,11 @@ impl Format {
                 }
 
                 // If we've found the second separator of the previous token, let's simply increment the start index of the next substring.
+                // (the last character of the input is not one when it belongs to the field: a field of one character)
+                let one_char_field = idx == s.len() - 1
+                    && (char.is_numeric() || !(cur_token.is_numeric() || cur_item.sep_char_is(char)));
                 if idx == prev_idx
+                    && !one_char_field
                     && (prev_item.second_sep_char.is_none() || prev_item.second_sep_char_is(char))
                 {
                     prev_idx += 1;
